@@ -10,6 +10,7 @@ import KyberModel.Drive.Pairing
 import KyberModel.Drive.Xof
 import KyberModel.Drive.Enc
 import KyberModel.Drive.Vss
+import KyberModel.Drive.RabinDkg
 import KyberModel.Drive.Sigma
 import KyberModel.Drive.Shuffle
 import KyberModel.Drive.Sha
@@ -43,6 +44,7 @@ def dispatch (line : String) : String :=
   | "rnd" :: args => handleRnd args
   | "enc" :: args => handleEnc args
   | "vss" :: args => handleVss args
+  | "rdkg" :: args => handleRdkg args
   | "dkg" :: args => handleDkg args
   | "sigma" :: args => handleSigma args
   | "shuffle" :: args => handleShuffle args
